@@ -5,7 +5,8 @@
 (* bare policy object):                                                        *)
 (*   [ id, prm |-> [kind, cap, pfc, mxf, thr, bm], rcap (capacity the policy     *)
 (*     object reports), W (flow weights), P, F (per item: priority/deadline,     *)
-(*     flow), lim0, idle, order, cnt, sink, allof (which clauses apply), hassc, sc      *)
+(*     flow), wt (capacity units an item occupies), disc, lim0, idle, order, cnt,  *)
+(*     sink, allof (which clauses apply), hassc, sc                                *)
 (*     (scenario for the QueuePipe machine), fin |-> <<accepted, completed>>,    *)
 (*     log |-> << <<op, item, t, active, limit, depth, x, c>>, ... >> ]          *)
 (*   op: psh (push accepted)  rej (push refused)  pop / pop0 (pop -> item/None)  *)
@@ -16,8 +17,8 @@
 (*   x = drops the policy reports itself, c = all rejections the component       *)
 (*   publishes (queue.stats_dropped + requests_rejected/reneged/... + x).        *)
 (*                                                                             *)
-(* Per trace two judgements, printed on one line                                 *)
-(*   <<"V", id, verdict, pos, mverdict, mpos, qverdict, qpos>>                   *)
+(* Per trace three judgements, one short line each (TLC wraps long tuples)       *)
+(*   <<"V", id, verdict, pos>>  <<"M", id, mverdict, mpos>>  <<"Q", id, qverdict, qpos>> *)
 (* verdict  = "ACCEPT" or the first "PROP:<clause>" of QueueContract that is     *)
 (*            false on the OBSERVED execution (only this can become a VIOLATION) *)
 (* mverdict = "OK" or the first "MODEL:<what>" where the observation differs     *)
@@ -26,21 +27,20 @@
 (* qverdict = "OK" or the first "MODEL:pipe_..." where the observed log differs   *)
 (*            from the log of the QueuePipe machine run on the same scenario     *)
 (*            (state-checked comparison, record by record) = drift.              *)
-(* The spec is total: every trace gets exactly one line.                         *)
+(* The spec is total: every trace gets its three lines; one TLC step per trace    *)
+(* (the machine run and the walk over the log are recursive folds).              *)
 EXTENDS QueuePipe, Policies, Json, IOUtils
 
-Traces == JsonDeserialize(IOEnv.TRACE_FILE)
+\* the JSON file is parsed once (TInit) and kept in a TLC register; an operator defined as
+\* JsonDeserialize(IOEnv...) would be re-evaluated, i.e. the file re-parsed, at every reference
+Traces == TLCGet(1)
 NT == Len(Traces)
 
-VARIABLES ti,       \* trace index
-          ph,       \* "run": the QueuePipe machine is running on the scenario; "walk": reading the log
-          l,        \* position in the observed log
-          w,        \* walker state (contract ghost + policy model)
-          verdict, vpos, mver, mpos, qver, qpos
-tvars == <<vars, ti, ph, l, w, verdict, vpos, mver, mpos, qver, qpos>>
+VARIABLE ti       \* trace index; one trace is judged per step (machine run and log walk are folded)
+tvars == <<sc, m, ti>>
 
-EmptySc == [wk |-> "server", lim |-> 1, cap |-> Inf, pol |-> "fifo", arr |-> <<>>, sh |-> [t |-> 0, l |-> 0]]
-ScOf(T) == IF T.hassc = 1 THEN T.sc ELSE EmptySc
+EmptySc == [wk |-> "server", lim |-> 1, prm |-> PrmOf("fifo", Inf), W |-> <<1>>, arr |-> <<>>,
+            sh |-> [t |-> 0, l |-> 0], dyn |-> <<>>, rt |-> 0]
 
 W0(T) ==
     [st |-> [i \in 1..Len(T.P) |-> "new"], oh |-> <<>>, ps |-> PInit(Len(T.W)),
@@ -49,15 +49,16 @@ W0(T) ==
      mdl |-> TRUE,     \* the Policies machine still follows the observation
      obs |-> TRUE]     \* the held list reconstructed from the observation is reliable
 
-Dummy == [id |-> 0, hassc |-> 0, P |-> <<>>, W |-> <<1>>, lim0 |-> 0]
-T1 == IF NT = 0 THEN Dummy ELSE Traces[1]
-TInit ==
-    /\ InitFor(ScOf(T1))
-    /\ ti = 1 /\ ph = "run" /\ l = 1 /\ w = W0(T1)
-    /\ verdict = "" /\ vpos = 0 /\ mver = "" /\ mpos = 0 /\ qver = "" /\ qpos = 0
+TInit == /\ TLCSet(1, JsonDeserialize(IOEnv.TRACE_FILE))
+         /\ sc = EmptySc /\ m = Start(EmptySc) /\ ti = 1
 
 \* ---------------------------------------------------------------------------
 \* one observed record
+\* The Policies machine (MODEL layer) follows the policy object that is actually installed: with the
+\* known deviation "shifted_ignores_policy" a component built with `policy or FIFOQueue()` (disc = 1)
+\* runs an unbounded FIFO.  The contract (PROP layer) is always judged against the configured T.prm.
+MPrm(T) == IF T.disc = 1 /\ Has("shifted_ignores_policy")
+           THEN [T.prm EXCEPT !.kind = "fifo", !.cap = Inf, !.thr = Inf] ELSE T.prm
 Kind(T) == T.prm.kind
 IsDl(T) == Kind(T) = "deadline"
 Flowed(T) == Kind(T) \in {"fair", "wfair"}
@@ -77,31 +78,31 @@ Apply(T, ww, r) ==
         w0 == [ww EXCEPT !.tl = t, !.lim = lm]
     IN
     CASE op = "psh" ->
-        LET m == PPush(T.prm, T.W, ww.ps, i, T.F, FALSE)
+        LET pm == PPush(MPrm(T), T.W, ww.ps, i, T.F, FALSE)
             pv == First3(IF ww.st[i] # "new" THEN "PROP:offered_item_seen_twice" ELSE "",
                          IF ~CapacityOK(d, T.rcap) THEN "PROP:capacity" ELSE "",
                          IF ~Conserved(ww.enq + 1, ww.deq, x, d) THEN "PROP:conservation" ELSE "")
-            mv == IF ~m.acc THEN "MODEL:push_accepted_model_refuses"
-                  ELSE IF Len(m.st.h) # d THEN "MODEL:depth" ELSE ""
+            mv == IF ~pm.acc THEN "MODEL:push_accepted_model_refuses"
+                  ELSE IF Len(pm.st.h) # d THEN "MODEL:depth" ELSE ""
         IN Out([w0 EXCEPT !.st[i] = "waiting", !.oh = Append(@, i), !.enq = @ + 1,
-                          !.ps = IF m.acc THEN m.st ELSE @,
+                          !.ps = IF pm.acc THEN pm.st ELSE @,
                           !.ov = IF Flowed(T) THEN OvPush(@, Len(T.W), T.F, T.F[i], ww.oh) ELSE @,
                           !.mdl = @ /\ mv = ""], pv, Mdl(ww, mv))
       [] op = "rej" ->
-        LET m == PPush(T.prm, T.W, ww.ps, i, T.F, TRUE)
+        LET pm == PPush(MPrm(T), T.W, ww.ps, i, T.F, TRUE)
             pv == First4(IF ww.st[i] # "new" THEN "PROP:offered_item_seen_twice" ELSE "",
                          IF T.cnt = 1 /\ ~Counted(ww.nrej + 1, c) THEN "PROP:reject_not_counted" ELSE "",
                          IF ~Conserved(ww.enq, ww.deq, x, d) THEN "PROP:conservation" ELSE "",
                          IF ~CapacityOK(d, T.rcap) THEN "PROP:capacity" ELSE "")
-            mv == IF m.acc THEN "MODEL:push_refused_model_accepts" ELSE ""
+            mv == IF pm.acc THEN "MODEL:push_refused_model_accepts" ELSE ""
         IN Out([w0 EXCEPT !.st[i] = "rejected", !.nrej = @ + 1,
-                          !.ps = IF m.acc THEN @ ELSE m.st, !.mdl = @ /\ mv = ""], pv, Mdl(ww, mv))
+                          !.ps = IF pm.acc THEN @ ELSE pm.st, !.mdl = @ /\ mv = ""], pv, Mdl(ww, mv))
       [] op = "pop" ->
         LET ex == Expired(T, ww, t, i)
             rest == (SeqSet(ww.oh) \ ex) \ {i}
             oh1 == SelectSeq(ww.oh, LAMBDA y : y \in rest)
             ov1 == IF Flowed(T) /\ InSeq(ww.oh, i) THEN OvPop(ww.ov, Len(T.W), T.F, T.F[i], ww.oh, oh1) ELSE ww.ov
-            m == PPop(T.prm, T.W, ww.ps, T.P, T.F, t)
+            pm == PPop(MPrm(T), T.W, ww.ps, T.P, T.F, t)
             held == ww.st[i] = "waiting" /\ InSeq(ww.oh, i)
             pv == First(IF ~held THEN "PROP:dequeued_item_not_waiting" ELSE "",
                   First4(IF T.order = 1 /\ ww.obs /\ ~LeavesInOrder(Kind(T), ww.oh, i, rest, T.P, T.F)
@@ -111,33 +112,33 @@ Apply(T, ww, r) ==
                          IF ~Conserved(ww.enq, ww.deq + 1, x, d) THEN "PROP:conservation" ELSE "",
                          First(IF T.cnt = 1 /\ ~Counted(ww.nrej + Cardinality(ex), c) THEN "PROP:reject_not_counted" ELSE "",
                                IF ~CapacityOK(d, T.rcap) THEN "PROP:capacity" ELSE "")))
-            mv == IF m.ret # i THEN "MODEL:pop_choice"
-                  ELSE IF Len(m.st.h) # d THEN "MODEL:depth"
-                  ELSE IF m.st.x # x THEN "MODEL:drop_count" ELSE ""
+            mv == IF pm.ret # i THEN "MODEL:pop_choice"
+                  ELSE IF Len(pm.st.h) # d THEN "MODEL:depth"
+                  ELSE IF pm.st.x # x THEN "MODEL:drop_count" ELSE ""
         IN Out([w0 EXCEPT !.st = [j \in DOMAIN ww.st |-> IF j = i THEN "transit"
                                                         ELSE IF j \in ex THEN "rejected" ELSE ww.st[j]],
                           !.oh = oh1, !.ov = ov1, !.deq = @ + 1, !.nrej = @ + Cardinality(ex),
                           !.lp[i] = lm, !.obs = @ /\ Len(oh1) = d,
-                          !.ps = IF mv = "" THEN m.st ELSE @, !.mdl = @ /\ mv = ""], pv, Mdl(ww, mv))
+                          !.ps = IF mv = "" THEN pm.st ELSE @, !.mdl = @ /\ mv = ""], pv, Mdl(ww, mv))
       [] op = "pop0" ->
         LET ex == Expired(T, ww, t, 0)
             oh1 == SelectSeq(ww.oh, LAMBDA y : y \notin ex)
-            m == PPop(T.prm, T.W, ww.ps, T.P, T.F, t)
+            pm == PPop(MPrm(T), T.W, ww.ps, T.P, T.F, t)
             pv == First(IF ~Conserved(ww.enq, ww.deq, x, d) THEN "PROP:conservation" ELSE "",
                         IF T.cnt = 1 /\ ~Counted(ww.nrej + Cardinality(ex), c) THEN "PROP:reject_not_counted" ELSE "")
-            mv == IF m.ret # 0 THEN "MODEL:pop_none_model_has_item"
-                  ELSE IF Len(m.st.h) # d THEN "MODEL:depth"
-                  ELSE IF m.st.x # x THEN "MODEL:drop_count" ELSE ""
+            mv == IF pm.ret # 0 THEN "MODEL:pop_none_model_has_item"
+                  ELSE IF Len(pm.st.h) # d THEN "MODEL:depth"
+                  ELSE IF pm.st.x # x THEN "MODEL:drop_count" ELSE ""
         IN Out([w0 EXCEPT !.st = [j \in DOMAIN ww.st |-> IF j \in ex THEN "rejected" ELSE ww.st[j]],
                           !.oh = oh1, !.nrej = @ + Cardinality(ex), !.obs = @ /\ Len(oh1) = d,
-                          !.ps = IF mv = "" THEN m.st ELSE @, !.mdl = @ /\ mv = ""], pv, Mdl(ww, mv))
+                          !.ps = IF mv = "" THEN pm.st ELSE @, !.mdl = @ /\ mv = ""], pv, Mdl(ww, mv))
       [] op = "sta" ->
         LET from == ww.st[i]
             lpi == IF from = "transit" THEN ww.lp[i] ELSE lm
             pv == First(IF ~LegalMove(from, "inservice") THEN "PROP:started_twice_or_after_completion" ELSE "",
-                        IF ~StartOK(ww.nS + 1, lm, lpi) THEN "PROP:limit" ELSE "")
-            mv == IF a # ww.nS + 1 THEN "MODEL:active_count" ELSE ""
-        IN Out([w0 EXCEPT !.st[i] = "inservice", !.nS = @ + 1, !.oh = Remove(@, i)], pv, mv)
+                        IF ~StartOK(ww.nS + T.wt[i], lm, lpi) THEN "PROP:limit" ELSE "")
+            mv == IF a # ww.nS + T.wt[i] THEN "MODEL:active_count" ELSE ""
+        IN Out([w0 EXCEPT !.st[i] = "inservice", !.nS = @ + T.wt[i], !.oh = Remove(@, i)], pv, mv)
       [] op = "rjq" ->
         LET from == ww.st[i]
             pv == First(IF ~LegalMove(from, "rejected") THEN "PROP:discarded_item_not_waiting" ELSE "",
@@ -145,12 +146,12 @@ Apply(T, ww, r) ==
         IN Out([w0 EXCEPT !.st[i] = "rejected", !.nrej = @ + 1, !.oh = Remove(@, i)], pv, "")
       [] op = "req" ->
         LET pv == IF ~LegalMove(ww.st[i], "waiting") \/ ww.st[i] = "new" THEN "PROP:requeued_item_not_in_transit" ELSE ""
-        IN Out([w0 EXCEPT !.st[i] = "waiting", !.oh = Append(Remove(@, i), i),
+        IN Out([w0 EXCEPT !.st[i] = "waiting", !.oh = Append(Remove(@, i), i), !.deq = @ - 1,
                           !.ps = [@ EXCEPT !.h = Append(Remove(@, i), i)]], pv, "")
       [] op = "fin" ->
         LET pv == IF ww.st[i] # "inservice" THEN "PROP:completed_twice_or_never_started" ELSE ""
-            mv == IF a # ww.nS - 1 THEN "MODEL:active_count" ELSE ""
-        IN Out([w0 EXCEPT !.st[i] = "done", !.nS = @ - 1], pv, mv)
+            mv == IF a # ww.nS - T.wt[i] THEN "MODEL:active_count" ELSE ""
+        IN Out([w0 EXCEPT !.st[i] = "done", !.nS = @ - T.wt[i]], pv, mv)
       [] op = "snk" ->
         LET pv == IF i \in ww.sunk THEN "PROP:delivered_downstream_twice" ELSE ""
             mv == IF ww.st[i] # "done" THEN "MODEL:downstream_before_completion" ELSE ""
@@ -176,47 +177,48 @@ IdleBefore(T, ww, r) ==
     IF T.idle = 1 /\ r[3] > ww.tl /\ ww.obs /\ IdleWait(Servable(T, ww, r[3]), ww.nS, ww.lim)
     THEN "PROP:idle_wait" ELSE ""
 
-\* comparison with the QueuePipe machine (first six fields of every record except "snk"/"end")
-PipeDiff(T, r, k) ==
+\* comparison with the QueuePipe machine (first six fields of every record except "snk"/"end");
+\* k = number of comparable records up to and including r
+PipeDiff(T, mlog, r, k) ==
     IF T.hassc = 0 \/ r[1] \in {"snk", "end"} THEN ""
-    ELSE IF k > Len(log) THEN "MODEL:pipe_log_shorter"
-    ELSE IF log[k] # <<r[1], r[2], r[3], r[4], r[5], r[6]>> THEN "MODEL:pipe_log" ELSE ""
+    ELSE IF k > Len(mlog) THEN "MODEL:pipe_log_shorter"
+    ELSE IF mlog[k] # <<r[1], r[2], r[3], r[4], r[5], r[6]>> THEN "MODEL:pipe_log" ELSE ""
 
-\* number of observed records that the machine log has to match, among the first n
-Comparable(T, n) == Cardinality({ k \in 1..n : T.log[k][1] \notin {"snk", "end"} })
+\* fold over the observed log; acc = [v, vp, mv, mp, qv, qp], c = comparable records so far
+RECURSIVE Walk(_, _, _, _, _, _)
+Walk(T, mlog, k, c, ww, acc) ==
+    IF acc.v # "" \/ k > Len(T.log)
+    THEN IF acc.v = "" /\ acc.qv = "" /\ T.hassc = 1 /\ c # Len(mlog)
+         THEN [acc EXCEPT !.qv = "MODEL:pipe_log_longer", !.qp = k]
+         ELSE acc
+    ELSE LET r == T.log[k]
+             c1 == IF r[1] \in {"snk", "end"} THEN c ELSE c + 1
+             pre == IdleBefore(T, ww, r)
+             o == Apply(T, ww, r)
+             pv == First(pre, o.pv)
+             qv == PipeDiff(T, mlog, r, c1)
+         IN Walk(T, mlog, k + 1, c1, o.w,
+                 [v |-> pv, vp |-> IF pv # "" THEN k ELSE 0,
+                  mv |-> First(acc.mv, o.mv), mp |-> IF acc.mv = "" /\ o.mv # "" THEN k ELSE acc.mp,
+                  qv |-> First(acc.qv, qv), qp |-> IF acc.qv = "" /\ qv # "" THEN k ELSE acc.qp])
 
-Finish(T) ==
-    /\ PrintT(<<"V", T.id, IF verdict = "" THEN "ACCEPT" ELSE verdict, vpos, IF mver = "" THEN "OK" ELSE mver, mpos,
-                IF qver = "" THEN "OK" ELSE qver, qpos>>)
-    /\ ti' = ti + 1 /\ ph' = "run" /\ l' = 1
-    /\ verdict' = "" /\ vpos' = 0 /\ mver' = "" /\ mpos' = 0 /\ qver' = "" /\ qpos' = 0
-    /\ IF ti < NT THEN LoadFor(ScOf(Traces[ti + 1])) /\ w' = W0(Traces[ti + 1])
-       ELSE UNCHANGED vars /\ w' = w
+\* (dbg = 1: also print the machine's log, for diagnosing drift)
+Judge(T) ==
+    LET mlog == IF T.hassc = 1 THEN RunAll(T.sc, Start(T.sc)).log ELSE <<>>
+    IN IF T.dbg = 1 /\ ~PrintT(<<"D", T.id, mlog>>) THEN [v |-> "", vp |-> 0, mv |-> "", mp |-> 0, qv |-> "", qp |-> 0] ELSE
+       Walk(T, mlog, 1, 0, W0(T), [v |-> "", vp |-> 0, mv |-> "", mp |-> 0, qv |-> "", qp |-> 0])
+
+OrOk(x, ok) == IF x = "" THEN ok ELSE x
 
 TNext ==
     /\ ti <= NT
-    /\ LET T == Traces[ti] IN
-       IF ph = "run" THEN
-            IF Runnable THEN Step /\ UNCHANGED <<ti, ph, l, w, verdict, vpos, mver, mpos, qver, qpos>>
-            ELSE ph' = "walk" /\ UNCHANGED <<vars, ti, l, w, verdict, vpos, mver, mpos, qver, qpos>>
-       ELSE IF verdict # "" \/ l > Len(T.log) THEN
-            \* after the last record the machine log must be used up as well
-            IF verdict = "" /\ qver = "" /\ T.hassc = 1 /\ Comparable(T, Len(T.log)) # Len(log)
-            THEN /\ qver' = "MODEL:pipe_log_longer" /\ qpos' = l
-                 /\ UNCHANGED <<vars, ti, ph, l, w, verdict, vpos, mver, mpos>>
-            ELSE Finish(T)
-       ELSE LET r == T.log[l]
-                pre == IdleBefore(T, w, r)
-                o == Apply(T, w, r)
-                pv == First(pre, o.pv)
-                mv == o.mv
-                qv == PipeDiff(T, r, Comparable(T, l))
-            IN /\ w' = o.w
-               /\ verdict' = pv /\ vpos' = IF pv # "" THEN l ELSE 0
-               /\ mver' = First(mver, mv) /\ mpos' = IF mver = "" /\ mv # "" THEN l ELSE mpos
-               /\ qver' = First(qver, qv) /\ qpos' = IF qver = "" /\ qv # "" THEN l ELSE qpos
-               /\ l' = l + 1
-               /\ UNCHANGED <<vars, ti, ph>>
+    /\ LET T == Traces[ti]
+           j == Judge(T)
+       IN /\ PrintT(<<"V", T.id, OrOk(j.v, "ACCEPT"), j.vp>>)
+          /\ PrintT(<<"M", T.id, OrOk(j.mv, "OK"), j.mp>>)
+          /\ PrintT(<<"Q", T.id, OrOk(j.qv, "OK"), j.qp>>)
+    /\ ti' = ti + 1
+    /\ UNCHANGED <<sc, m>>
 
 TSpec == TInit /\ [][TNext]_tvars
 =============================================================================
